@@ -28,14 +28,45 @@ class FNP(MathNP):
     complex128 = 'c16'
 
     @staticmethod
-    def arange(a, b=None, dtype=None):
+    def arange(a, b=None, step=None, dtype=None):
         """concrete bounds: NumPy's own array (a vectorised rewrite of a loop over DFT bins computes on concrete bin
-        indices exactly as the loop did); symbolic bounds: lazy array"""
+        indices exactly as the loop did); symbolic integer bounds: lazy array; symbolic REAL start/stop/step: the
+        length is ceil((stop-start)/step) evaluated in floating point -- when the ratio is an exact integer k, rounding
+        makes it k or k+1 (NumPy documents the length of a float arange as unreliable), both are explored"""
         import numpy as _np
         if b is None:
             a, b = 0, a
-        if not is_sym(a) and not is_sym(b):
-            return _np.arange(a, b, dtype=_np.float64 if dtype in ('f8', float) else None)
+        if step is not None and not isinstance(step, (int, float, SInt, SReal)):
+            step, dtype = None, step
+        if not is_sym(a) and not is_sym(b) and not is_sym(step):
+            if step is None:
+                return _np.arange(a, b, dtype=_np.float64 if dtype in ('f8', float) else None)
+            return _np.arange(a, b, step, dtype=_np.float64 if dtype in ('f8', float) else None)
+        if step is not None or isinstance(a, (SReal, float)) or isinstance(b, (SReal, float)):
+            st = rv(1 if step is None else step)
+            az, bz = rv(a), rv(b)
+            if az.sort() != R:
+                az = z3.ToReal(az)
+            if bz.sort() != R:
+                bz = z3.ToReal(bz)
+            if st.sort() != R:
+                st = z3.ToReal(st)
+            if not decide(st > 0):
+                raise Unsupported('arange with a non-positive symbolic step')
+            span = bz - az
+            n = None
+            if decide(span <= 0):
+                n = 0
+            else:
+                for k in range(1, 33):
+                    if decide(z3.And((k - 1) * st < span, span <= k * st)):
+                        n = k
+                        if decide(span == k * st) and decide(z3.Bool('float_arange_length_rounds_up')):
+                            n = k + 1
+                        break
+            if n is None:
+                raise Unsupported('float arange longer than 32 elements')
+            return ND.fresh((n,), lambda idx: az + z3.ToReal(idx[0]) * st, 'f8')
         az, bz = _z(a), _z(b)
         n = conc(SInt(z3.simplify(z3.If(bz - az > 0, bz - az, 0))))
         return ND.fresh((n,), lambda idx: z3.ToReal(az + idx[0]), 'f8')
